@@ -37,7 +37,7 @@ def step (s : QState) (line : String) : QState × String :=
     let m := if mode == "threads" then Mode.threads else Mode.processes
     let k := if kind == "bare" then Kind.bare else Kind.tree
     let sch := (sched.splitOn ",").filterMap (·.toNat?)
-    let out := runSched uidOf k m { members := s.members } (s.ops.map fun op => { op := op }) sch
+    let out := runSched uidOf k m { members := s.members, wt := s.members } (s.ops.map fun op => { op := op }) sch
     let res := results out.2
     let fin := out.1.members.toArray.qsort (fun a b => a.1 < b.1) |>.toList
     let ser := serialisable uidOf s.members s.ops out.1.members (res.map fun r => r.getD .failed)
